@@ -43,6 +43,7 @@ type fctx struct {
 	loopNo int
 	params []string // Lean binder list of the function (for loops: subset is recomputed)
 	closure bool    // translating a function literal: only the receiver is threaded
+	closureOuts []types.Object // state-callback literal: its parameter and the captured variables it assigns
 	ifaceCb map[types.Object]map[string]string // interface parameter -> method -> Lean callback name
 }
 
@@ -158,6 +159,10 @@ func (c *fctx) zeroOf(t ltype) (string, error) {
 		return "(0 : Int)", nil
 	case kUnsigned, kWireType:
 		return "0", nil
+	case kFloat:
+		return "(0 : Nat)", nil // +0.0: all bits zero
+	case kMap:
+		return "(none : " + t.lean + ")", nil
 	case kByte:
 		return "(0 : Byte)", nil
 	case kBool:
@@ -462,6 +467,15 @@ func (c *fctx) binary(x *ast.BinaryExpr) (lx, error) {
 			}
 		}
 	}
+	if (x.Op == token.EQL || x.Op == token.NEQ) && a.t.k == kMap {
+		if id, ok := stripParens(x.Y).(*ast.Ident); ok && id.Name == "nil" {
+			if x.Op == token.EQL {
+				return mkBool("(Go.mapIsNil " + a.s + " = true)"), nil
+			}
+			return mkBool("(Go.mapIsNil " + a.s + " = false)"), nil
+		}
+		return lx{}, fmt.Errorf("maps can only be compared with nil")
+	}
 	b, err := c.expr(x.Y)
 	if err != nil {
 		return lx{}, err
@@ -623,6 +637,9 @@ func (c *fctx) composite(x *ast.CompositeLit) (lx, error) {
 	t, err := c.typeOf(x)
 	if err != nil {
 		return lx{}, err
+	}
+	if t.k == kMap && len(x.Elts) == 0 {
+		return lx{s: "(Go.mapEmpty : " + t.lean + ")", t: t}, nil
 	}
 	if t.k != kStruct {
 		return lx{}, fmt.Errorf("composite literal of %s not supported", t.lean)
